@@ -391,6 +391,21 @@ F5_WITNESS = dict(
     selected=[0, 1, 2, 3], env_maps={}, test_threads=2)
 
 
+# a script sets names nextest itself puts on test commands (package metadata): the matched tests see the
+# script's values, the others nextest's
+COLLIDE_WITNESS = dict(
+    names=["alpha", "beta"], tool=False, profile="default", host="x86_64-unknown-linux-gnu", target=None,
+    rules=[dict(host=None, target=None, form="table", filter=["atom", 2], setup=["alpha"],
+                profile="default", setup_as_string=False),
+           dict(host=None, target=None, form="table", filter=["atom", 0], setup=["beta"],
+                profile="default", setup_as_string=False)],
+    scripts=[dict(name="alpha", kind="pass_",
+                  env_bytes=list(b"CARGO_PKG_DESCRIPTION=c18-alpha\nC18V_FOO=a\nCARGO_PKG_HOMEPAGE=c18-alpha\n"),
+                  exit=0, sleep_ms=0, hang=False),
+             dict(name="beta", kind="pass_", env_bytes=list(b"C18V_K=b\n"), exit=0, sleep_ms=0, hang=False)],
+    selected=[0, 1, 2, 3], env_maps={}, test_threads=2)
+
+
 def corpus():
     p = os.path.join(vlib.VERIF, "corpus", "C18.json")
     return json.load(open(p)) if os.path.exists(p) else {}
@@ -405,6 +420,27 @@ RUN_QUERIES = [dict(pkg=b["pkg"], kind="lib", binary_name=b["binary_id"], binary
 # identifier-shaped names only: the scripted test binaries are /bin/sh scripts, and sh does not
 # pass on variables whose names are not identifiers
 RUN_KEYS = ["C18V_FOO", "C18V_K", "C18V_e2"]
+# names nextest itself puts on every test command (package metadata): a script may set them too -- only names
+# beginning with NEXTEST are refused -- and then its value is what the matched tests see
+COLLIDING_KEYS = ["CARGO_PKG_DESCRIPTION", "CARGO_PKG_HOMEPAGE"]
+
+
+def script_written(sc):
+    """{colliding key: set of values some script of the scenario writes for it}"""
+    out = {}
+    for s_ in sc["scripts"]:
+        env = py_parse_env(bytes(s_["env_bytes"])) or {}
+        for k in COLLIDING_KEYS:
+            if k in env:
+                out.setdefault(k, set()).add(env[k])
+    return out
+
+
+def observed_env(sc, pairs):
+    """the part of a test process's environment the comparison is about: the C18V_ variables, and a colliding
+    name when its value is one a script wrote (otherwise it is nextest's own value for an unmatched test)"""
+    w = script_written(sc)
+    return {k: v for k, v in pairs if k.startswith("C18V_") or (k in w and v in w[k])}
 RUN_ATOMS = [0, 2, 5, 8, 9, 10, 15]   # all(), test(alpha), package(crate_a), deps, rdeps, kind(lib), platform(target)
 RESULT_CODE = dict(pass_=0, leaky=0, fail=2, badenv=3, execfail=3, timeout=4)
 
@@ -417,6 +453,8 @@ def gen_run_case(r):
         kind = r.choices(["pass_", "leaky", "fail", "badenv", "execfail", "timeout"], [58, 12, 10, 12, 5, 3])[0]
         lines = [f"{r.choice(RUN_KEYS)}={r.choice([nm, nm, nm + '=b', 'x y ' + nm, 'ü', ''])}"
                  for _ in range(r.randint(0, 3))]
+        if r.random() < 0.25:
+            lines.insert(r.randint(0, len(lines)), f"{r.choice(COLLIDING_KEYS)}=c18-{nm}")
         if kind == "badenv":
             lines.insert(r.randint(0, len(lines)),
                          r.choice(["NEXTEST_BAD=1", "NOEQ", "", "NEXTEST=x", "NEXTESTING=1"]))
@@ -537,7 +575,11 @@ def oracle_run(sc, res):
         for nm in needed:
             if lm(nm, q):
                 env.update(parsed[nm])
-        got = {k: v for k, v in res["test_envs"].get(f"{q['binary_id']} {q['test']}", []) if k.startswith("C18V_")}
+        got = observed_env(sc, res["test_envs"].get(f"{q['binary_id']} {q['test']}", []))
+        for k in COLLIDING_KEYS:
+            if k in env and k not in got:
+                # the matched test still sees nextest's own value for a name a script set
+                got[k] = dict(res["test_envs"].get(f"{q['binary_id']} {q['test']}", [])).get(k)
         if got != env:
             leaky = [nm for nm in needed if lm(nm, q) and by_name[nm]["kind"] == "leaky"]
             hint = (f" (script(s) {leaky} exit 0 with a background child holding the captured stdout: "
@@ -609,7 +651,7 @@ def check_runs(chk, binary, scenarios, tag):
         for e in res["events"]:
             if e[0] == "test-started":
                 envl = res["test_envs"].get(f"{e[1]} {e[2]}", [])
-                i_tests[qix[(e[1], e[2])]] = {k: v for k, v in envl if k.startswith("C18V_")}
+                i_tests[qix[(e[1], e[2])]] = observed_env(sc, envl)
         i_exit = 105 if res["summary"] == "failed-setup-script" else 0
         if (i_scripts != m_scripts or i_tests != m_tests or i_exit != mo[1][1]) and mismatch is None:
             mismatch = (sc, res, dict(script_events=m_scripts, tests={str(k): v for k, v in m_tests.items()},
@@ -762,7 +804,7 @@ def run(tier, seed):
     check_env_files(chk, binary, files, "c18e")
 
     # ---- real runs of the real runner over scripted scripts and scripted test binaries ---------
-    runs = [F5_WITNESS, LEAK_WITNESS, nff_witness(0), nff_witness(2)] + list(cp.get("runs", []))
+    runs = [F5_WITNESS, LEAK_WITNESS, nff_witness(0), nff_witness(2), COLLIDE_WITNESS] + list(cp.get("runs", []))
     while len(runs) < (240 if thorough else 36):
         runs.append(gen_run_case(r))
     check_runs(chk, binary, runs, "c18r")
